@@ -301,8 +301,8 @@ double Interpolation::Local_Minimum(double x_1, double x_2)
 		return std::min(f_left, f_right);
 	else
 	{
-		// Find the smallest value of function_values between i_1+1 and i_2.
-		double min_entry = *std::min_element(function_values.begin() + i_1 + 1, function_values.begin() + i_2);
+		// Find the smallest value of function_values between i_1+1 and i_2 (both included).
+		double min_entry = *std::min_element(function_values.begin() + i_1 + 1, function_values.begin() + i_2 + 1);
 		return std::min({f_left, min_entry, f_right});
 	}
 }
@@ -318,8 +318,8 @@ double Interpolation::Local_Maximum(double x_1, double x_2)
 		return std::max(f_left, f_right);
 	else
 	{
-		// Find the largest value of function_values between i_1+1 and i_2.
-		double max_entry = *std::max_element(function_values.begin() + i_1 + 1, function_values.begin() + i_2);
+		// Find the largest value of function_values between i_1+1 and i_2 (both included).
+		double max_entry = *std::max_element(function_values.begin() + i_1 + 1, function_values.begin() + i_2 + 1);
 		return std::max({f_left, max_entry, f_right});
 	}
 }
